@@ -2,6 +2,7 @@ package main
 
 import (
 	"math/rand"
+	"os"
 	"time"
 )
 
@@ -14,6 +15,10 @@ func init() {
 
 // C01 - routing selects the documented route with the correct parameters.
 func checkC01(r *Run) {
+	if os.Getenv("FOXCHECK_ONLY") == "lookupmodel" {
+		runLookupModel(r)
+		return
+	}
 	rng := rand.New(rand.NewSource(r.Seed))
 	g := newMatchGen(rng, pick(r, 20, 46), 0, 3, pick(r, 5, 6), pick(r, 120, 260), false)
 	runMatchD1(r, g, "direct", false, pick(r, 5*time.Minute, 40*time.Minute))
@@ -22,6 +27,7 @@ func checkC01(r *Run) {
 	gh.Hosts = append(derivedHostsFirst(gh, pick(r, 8, 14)), "a.b", "a.ab", "a.b.ab")
 	runMatchD1(r, gh, "direct", false, pick(r, 5*time.Minute, 40*time.Minute))
 	runMatchD2(r, false, false)
+	runLookupModel(r)
 	r.assumption("the reference matcher of spec/FoxMatch.tla is the documented routing rule (DESIGN.md 3.1, 7)")
 	r.assumption("requests have no empty path segment")
 }
@@ -48,6 +54,7 @@ func checkC08(r *Run) {
 	runServeD1(r, newServeGen(r, rng), "C08", pick(r, 5*time.Minute, 40*time.Minute))
 	runServeD2(r, rng, "C08")
 	runServeDirtyStatic(r, rng)
+	runLookupModel(r)
 	r.assumption("Location is compared after RFC 3986 resolution against the request URL (net/url)")
 	r.assumption("CONNECT routes that ignore trailing slashes are not generated (DESIGN.md 7)")
 }
